@@ -196,6 +196,8 @@ def run(ctx):
     # resume, barrier blocks) replayed through IoCh.exec; the barrier clause evaluated on the same runs
     run_traces(ctx, "tr_iobar", [[ctx.seed * 10 + i, 1500 if ctx.thorough else 300] for i in range(3 if ctx.thorough else 2)], "iobar",
                r"explained-by-IoCh.exec (\d+)", "L-trace io barrier", "iobar", timeout=200)
+    # peer hang-up under the stream sources of a channel: the sources of a hung-up descriptor (F27)
+    run_traces(ctx, "c16_hangup", [[ctx.seed * 10 + 7, 1000 if ctx.thorough else 150]], None, None, "L-api hang-up", "hangup", timeout=600)
     # cleanup orchestration: the recorded history of the descriptor entry's close queue (suspensions / resumptions, handler calls,
     # cleanup handlers) replayed through IoHold.astep; the cleanup clause evaluated on the same runs
     run_traces(ctx, "tr_iohold", [[ctx.seed * 10 + i, 150 if ctx.thorough else 30] for i in range(4 if ctx.thorough else 2)], "iohold",
